@@ -1644,7 +1644,29 @@ func c02InstructionFor(w *World, cf *ssa.Function, elem int64) (ssa.Value, bool)
 	for _, b := range cf.Blocks {
 		for _, in := range b.Instrs {
 			c, ok := in.(*ssa.Call)
-			if !ok || c.Call.StaticCallee() == nil || nm(c.Call.StaticCallee()) != "CodeFn" || len(c.Call.Args) < 2 {
+			if !ok || c.Call.StaticCallee() == nil {
+				continue
+			}
+			fnArg := -1
+			if nm(c.Call.StaticCallee()) == "CodeFn" && len(c.Call.Args) >= 2 {
+				fnArg = 1
+			} else if h := c.Call.StaticCallee(); h.Blocks != nil && h.Pkg == cf.Pkg && len(ssaLoops(h)) == 0 {
+				// a helper of the package that emits, through CodeFn, the function it is handed
+				for _, hb := range h.Blocks {
+					for _, hin := range hb.Instrs {
+						hc, isC := hin.(*ssa.Call)
+						if !isC || hc.Call.StaticCallee() == nil || nm(hc.Call.StaticCallee()) != "CodeFn" || len(hc.Call.Args) < 2 {
+							continue
+						}
+						for i, prm := range h.Params {
+							if hc.Call.Args[1] == ssa.Value(prm) && i < len(c.Call.Args) && hb == h.Blocks[0] {
+								fnArg = i
+							}
+						}
+					}
+				}
+			}
+			if fnArg < 0 {
 				continue
 			}
 			ncalls++
@@ -1652,7 +1674,7 @@ func c02InstructionFor(w *World, cf *ssa.Function, elem int64) (ssa.Value, bool)
 			if reached, decided, _ := pcEvalUnder(sym.PathCond(cf.Blocks[0], b, nil), model); decided && !reached {
 				continue
 			}
-			v, ok := resolve(c.Call.Args[1], 0)
+			v, ok := resolve(c.Call.Args[fnArg], 0)
 			if !ok {
 				return nil, false
 			}
